@@ -250,7 +250,7 @@ def gen : Hint → Pith → Nat → Expr
     .and (.isinst (p.asg k) (ls.map (·.1))) (orList (ls.map (fun l => .eqAtom (.var (pv (p.idx k))) l.2)))
   | .tupleFixed hs, p, k =>
     let k' := p.idx k
-    if hs.isEmpty then .and (.isinst (p.asg k) [cTuple]) (.not (.var (pv k')))
+    if hs.isEmpty then .and (.isinst (p.asg k) [cTuple]) (.not (.len (.var (pv k'))))
     else andList (.isinst (p.asg k) [cTuple] :: .lenEq (.var (pv k')) hs.length :: genTuple hs k' 0)
   | .seq o h, p, k =>
     if h.ignorable then .isinst (p.raw k) [o]
